@@ -155,10 +155,10 @@ SPECS = {
                 "vAMM-level histories (a plain account plays the engine): reserves from one unit to 2^100, amounts built to leave division remainders, both swap kinds and directions, "
                 "interleaved with funding, config and block changes; plus engine-driven histories; non-trivial = a swap that moved the reserves",
                 r"(result|v\d+\.(q|b|total))"),
-    "C17": Spec("C17", [fam("vamm", 30, 200), Family("engine", shards(3, 25), shards(8, 150))],
+    "C17": Spec("C17", [fam("vamm", 30, 200), Family("engine", shards(3, 25) + shards(3, 25, prof="reduce"), shards(8, 150) + shards(6, 150, prof="reduce"))],
                 merged((("vamm", "engine"), mon_more.mon("C17"))),
                 "vAMM-level swaps preceded by the corresponding amount query, limit tuner at quoted amount -1 / = / +1, both kinds and directions; engine OpenPosition/ClosePosition with "
-                "limits at the quoted amount +-1",
+                "limits at the quoted amount +-1; opposite-side opens with a limit sized around the position's spot and TWAP notional right after a price move",
                 r"(result|v\d+\.(q|b|total))"),
     "C18": Spec("C18", [fam("vamm", 30, 200), fam("feed", 40, 300)],
                 merged((("vamm",), mon_more.mon("C18")), (("feed",), mon_more.c18_feed)),
